@@ -148,4 +148,6 @@ LEVEL_TEXT = ("Proof: Properties/C08.v states, over a Gallina model of the repai
 LEVEL_NOTE = ("Trusted: Coq kernel; Model/Scte.v transcription (checked by this correspondence); Spec/Scte35Spec.v as a reading of "
               "SCTE 35; extraction and executor glue; Go semantics of bytes.Buffer.")
 TECHNIQUE = "Coq proof (parser inverts serialiser, branch by branch) + model/implementation correspondence on the flag lattice and random sections"
-PARTIAL = "see Properties/C08.v: clauses named _partial list what is missing"
+PARTIAL = ("no clause is partial; limits stated in the theorems: pointer_field < 255 (uint8 wrap in psi, C08_pointer_255_refuted), "
+           "the model is of the repaired code (F8, loops); String() and StreamSwitchSignalId() are not in the view; "
+           "IsIn/IsOut/CanClose/Equal belong to C19")
